@@ -123,6 +123,11 @@ class SumAggregator:
                 local_vars = set(collect_ast(arg, "Variable"))
                 if not global_vars or not local_vars.issubset(global_vars):
                     unprojected.append(index)
+            # the group positions have to identify the instance of the rule:
+            # every global variable of the body has to be an argument of the atom
+            group_args = [arg for index, arg in enumerate(sa.arguments) if index not in unprojected]
+            if not global_vars.issubset(group_args):
+                return ret
             preds.add(AnnotatedPredicate(p, tuple(unprojected)))
 
         if len(preds) != 1:
